@@ -1,6 +1,1020 @@
-//! table_runner for the line protocol (extension point).
-use crate::exec::Runner;
+//! `hashbrown::HashTable<T>` (explicit-hash API, src/table.rs) for the line protocol.
+//!
+//! Conventions (mirrored by `lean/Hb/Model/Table.lean` / `lean/Hb/Driver/TableOps.lean`):
+//! * the `hash` argument of every call is `tape::plan_hash(k)` (does not consume the hash tape);
+//!   the `hasher` closure is `|e| tape::hash_of(e.k)` (consumes the tape, may panic);
+//!   equality closures are `|e| tape::eq_of(q, e.k)`;
+//! * elements are printed `k.id.0.v`; a zero-sized element has no fields: `k = id = v = 0`, writes
+//!   to `v` are no-ops, and iterator observations print `0` for every yielded bucket (a `&Zst`
+//!   carries no address);
+//! * new elements of an operation are constructed before the call, i.e. they are owned by the
+//!   operation: they are dropped when a callback unwinds or when the operation does not consume them.
+use crate::elems::Pad;
+use crate::elems::{A16, A32, A64, Big};
+use crate::exec::{self, fmt_state, fmt_tre, inv_oracle, lawful, loud, nats, observe_iter, observe_iter_nc, panic_class, quiet, Runner};
+use crate::tape::{self, TapeAlloc};
+use hashbrown::hash_table::Entry;
+use hashbrown::verif::Dump;
+use hashbrown::HashTable;
+use std::collections::HashMap as StdMap;
+use std::panic::{catch_unwind, AssertUnwindSafe};
+
+pub trait ItemT: Clone + 'static {
+    const DROP: bool;
+    const IDS: bool;
+    const ZST: bool;
+    fn new(k: u64, id: u64, v: u64) -> Self;
+    fn k(&self) -> u64;
+    fn id(&self) -> u64;
+    fn v(&self) -> u64;
+    fn set_v(&mut self, v: u64);
+}
+
+/// Element with drop glue.
+pub struct ItemD<P: Pad = ()> {
+    pub k: u64,
+    pub id: u64,
+    pub v: u64,
+    pub pad: P,
+}
+impl<P: Pad> Drop for ItemD<P> {
+    fn drop(&mut self) {
+        tape::drop_key(self.id);
+    }
+}
+impl<P: Pad> Clone for ItemD<P> {
+    fn clone(&self) -> Self {
+        ItemD { k: self.k, id: tape::clone_key(), v: self.v, pad: self.pad }
+    }
+}
+impl<P: Pad> ItemT for ItemD<P> {
+    const DROP: bool = true;
+    const IDS: bool = true;
+    const ZST: bool = false;
+    fn new(k: u64, id: u64, v: u64) -> Self {
+        ItemD { k, id, v, pad: P::default() }
+    }
+    fn k(&self) -> u64 {
+        self.k
+    }
+    fn id(&self) -> u64 {
+        self.id
+    }
+    fn v(&self) -> u64 {
+        self.v
+    }
+    fn set_v(&mut self, v: u64) {
+        self.v = v
+    }
+}
+
+/// Element without drop glue.
+#[derive(Copy)]
+pub struct ItemC<P: Pad = ()> {
+    pub k: u64,
+    pub id: u64,
+    pub v: u64,
+    pub pad: P,
+}
+impl<P: Pad> Clone for ItemC<P> {
+    fn clone(&self) -> Self {
+        ItemC { k: self.k, id: tape::clone_key(), v: self.v, pad: self.pad }
+    }
+}
+impl<P: Pad> ItemT for ItemC<P> {
+    const DROP: bool = false;
+    const IDS: bool = true;
+    const ZST: bool = false;
+    fn new(k: u64, id: u64, v: u64) -> Self {
+        ItemC { k, id, v, pad: P::default() }
+    }
+    fn k(&self) -> u64 {
+        self.k
+    }
+    fn id(&self) -> u64 {
+        self.id
+    }
+    fn v(&self) -> u64 {
+        self.v
+    }
+    fn set_v(&mut self, v: u64) {
+        self.v = v
+    }
+}
+
+/// Zero-sized element. `Clone` still consumes the clone tape (one call per element).
+#[derive(Copy)]
+pub struct Zst;
+impl Clone for Zst {
+    fn clone(&self) -> Self {
+        let _ = tape::clone_key();
+        Zst
+    }
+}
+impl ItemT for Zst {
+    const DROP: bool = false;
+    const IDS: bool = false;
+    const ZST: bool = true;
+    fn new(_: u64, _: u64, _: u64) -> Self {
+        Zst
+    }
+    fn k(&self) -> u64 {
+        0
+    }
+    fn id(&self) -> u64 {
+        0
+    }
+    fn v(&self) -> u64 {
+        0
+    }
+    fn set_v(&mut self, _: u64) {}
+}
+
+pub type HT<T> = HashTable<T, TapeAlloc>;
+/// Reference multiset: `(k, id, v)` per stored element.
+pub type Ms = Vec<(u64, u64, u64)>;
+
+fn new_table<T: ItemT>() -> HT<T> {
+    HashTable::new_in(TapeAlloc)
+}
+
+fn fmt_item<T: ItemT>(e: &T) -> String {
+    if T::IDS {
+        format!("{}.{}.0.{}", e.k(), e.id(), e.v())
+    } else {
+        format!("{}.0.0.{}", e.k(), e.v())
+    }
+}
+
+fn fmt_items<T: ItemT>(v: &[T]) -> String {
+    v.iter().map(fmt_item).collect::<Vec<_>>().join(",")
+}
+
+fn full_buckets<T: ItemT>(m: &HT<T>) -> Vec<(usize, &T)> {
+    let d = m.verif_dump();
+    let mut out = Vec::new();
+    if !d.is_singleton {
+        for i in 0..=d.bucket_mask {
+            if let Some(e) = m.verif_bucket(i) {
+                out.push((i, e));
+            }
+        }
+    }
+    out
+}
+
+fn contents<T: ItemT>(m: &HT<T>) -> Ms {
+    full_buckets(m).iter().map(|(_, e)| (e.k(), e.id(), e.v())).collect()
+}
+
+fn sorted(x: &Ms) -> Ms {
+    let mut y = x.clone();
+    y.sort();
+    y
+}
+
+fn state_of<T: ItemT>(m: &HT<T>) -> String {
+    let d = m.verif_dump();
+    let slots: Vec<(usize, String)> = full_buckets(m).iter().map(|(i, e)| (*i, fmt_item(*e))).collect();
+    format!(
+        "{} len={} cap={} asz={}",
+        fmt_state(&d, &slots),
+        m.len(),
+        m.capacity(),
+        m.allocation_size()
+    )
+}
+
+/// address of the element in bucket `i` ↦ `i` (useless for zero-sized elements)
+fn addr_index<T: ItemT>(m: &HT<T>) -> StdMap<usize, usize> {
+    full_buckets(m).iter().map(|(i, e)| (*e as *const T as usize, *i)).collect()
+}
+
+/// Independent walk of the probe sequence over a dump: the first bucket whose control byte carries
+/// the tag of `hash` and which `pred` accepts (what `find` must return), using only the exported
+/// group primitives.
+fn tbl_probe_find(d: &Dump, hash: u64, mut pred: impl FnMut(usize) -> bool) -> Option<usize> {
+    let w = hashbrown::verif::GROUP_WIDTH;
+    let mask = d.bucket_mask;
+    let steps = (mask + 1) / w + 2;
+    let tag = hashbrown::verif::tag_full(hash);
+    for pos in hashbrown::verif::probe_positions(hash, mask, steps) {
+        let g = &d.ctrl[pos..pos + w];
+        for lane in hashbrown::verif::group_match_tag(g, tag) {
+            let i = (pos + lane) & mask;
+            if pred(i) {
+                return Some(i);
+            }
+        }
+        if !hashbrown::verif::group_match_empty(g).is_empty() {
+            return None;
+        }
+    }
+    None
+}
+
+fn parse_elem(s: &str) -> Option<(u64, u64, u64)> {
+    let p: Vec<u64> = s.split('.').filter_map(|x| x.parse().ok()).collect();
+    if p.len() == 4 {
+        Some((p[0], p[1], p[3]))
+    } else {
+        None
+    }
+}
+
+fn take(r: &mut Ms, e: (u64, u64, u64)) -> bool {
+    match r.iter().position(|x| *x == e) {
+        Some(p) => {
+            r.swap_remove(p);
+            true
+        }
+        None => false,
+    }
+}
+
+/// Elements handed back to the caller by an iterator. They belong to the harness: whenever they are
+/// dropped — also while a later callback / destructor panic unwinds — it is done quietly (not an
+/// observation of the table). Locals declared later (the iterator itself) are dropped before it.
+struct QuietVec<T>(Vec<T>);
+impl<T> Drop for QuietVec<T> {
+    fn drop(&mut self) {
+        quiet();
+        self.0.clear();
+    }
+}
+
+pub struct TableRunner<T: ItemT> {
+    pub a: Option<HT<T>>,
+    pub b: Option<HT<T>>,
+    pub ra: Ms,
+    pub rb: Ms,
+    /// predicate decisions of the last retain/extract_if: (k, id, answer, new v)
+    pub preds: std::rc::Rc<std::cell::RefCell<Vec<(u64, u64, bool, u64)>>>,
+    pub live: std::collections::BTreeSet<String>,
+    pub dead: std::collections::BTreeSet<String>,
+    pub leak_ok: bool,
+}
+
+fn gmm<T: ItemT, const N: usize>(m: &mut HT<T>, ks: &[u64], any: bool) -> String {
+    let hashes: [u64; N] = std::array::from_fn(|i| tape::plan_hash(ks[i]));
+    let res = if any {
+        m.get_many_mut(hashes, |_, _| true)
+    } else {
+        m.get_many_mut(hashes, |i, e| tape::eq_of(ks[i], e.k()))
+    };
+    let out: Vec<String> = res.iter().map(|o| o.as_ref().map_or("-".into(), |e| fmt_item::<T>(e))).collect();
+    for (i, o) in res.into_iter().enumerate() {
+        if let Some(e) = o {
+            e.set_v(e.v() + 1000 * (i as u64 + 1));
+        }
+    }
+    format!("[{}]", out.join(","))
+}
+
+impl<T: ItemT> TableRunner<T> {
+    pub fn new() -> Self {
+        TableRunner {
+            a: Some(new_table()),
+            b: Some(new_table()),
+            ra: Vec::new(),
+            rb: Vec::new(),
+            preds: Default::default(),
+            live: Default::default(),
+            dead: Default::default(),
+            leak_ok: false,
+        }
+    }
+    fn get(&self, tgt: &str) -> &HT<T> {
+        if tgt == "a" {
+            self.a.as_ref().unwrap()
+        } else {
+            self.b.as_ref().unwrap()
+        }
+    }
+    fn other_of(tgt: &str) -> &'static str {
+        if tgt == "a" {
+            "b"
+        } else {
+            "a"
+        }
+    }
+
+    /// Element of the reference multiset standing for `(k, id, v)` of the protocol.
+    fn el(k: u64, id: u64, v: u64) -> (u64, u64, u64) {
+        if T::ZST {
+            (0, 0, 0)
+        } else {
+            (k, id, v)
+        }
+    }
+
+    /// Direct oracle for `get_many_mut*` (also when it panicked): an independent probe walk says
+    /// which bucket every request must resolve to; a panic is legitimate iff two requests
+    /// resolve to the same bucket.
+    fn gmm_oracle(&self, tgt: &str, name: &str, a: &[&str], ret: &str) -> Option<String> {
+        let m = self.get(tgt);
+        let d = m.verif_dump();
+        let any = name == "get_many_mut_any";
+        let ks: Vec<u64> = a.iter().map(|s| s.parse().unwrap()).collect();
+        let idxs: Vec<Option<usize>> = ks
+            .iter()
+            .map(|&k| {
+                tbl_probe_find(&d, tape::plan_hash(k), |i| any || m.verif_bucket(i).map_or(false, |e| e.k() == k))
+            })
+            .collect();
+        let mut clash = false;
+        for i in 0..idxs.len() {
+            for j in 0..i {
+                if idxs[i].is_some() && idxs[i] == idxs[j] {
+                    clash = true;
+                }
+            }
+        }
+        if ret.starts_with("panic:dup") {
+            if !clash {
+                return Some(format!(
+                    "get_many_mut_panicked_for_distinct_entries: requests {:?} resolve to buckets {:?}",
+                    ks, idxs
+                ));
+            }
+            return None;
+        }
+        if ret.starts_with("panic") {
+            return None;
+        }
+        if clash {
+            return Some(format!("get_many_mut returned although requests {:?} resolve to buckets {:?}", ks, idxs));
+        }
+        let inner = ret.trim_start_matches('[').trim_end_matches(']');
+        let got: Vec<&str> = if inner.is_empty() { vec![] } else { inner.split(',').collect() };
+        if got.len() != ks.len() {
+            return Some(format!("get_many_mut returned {} results for {} requests", got.len(), ks.len()));
+        }
+        for (i, g) in got.iter().enumerate() {
+            match (idxs[i], parse_elem(g)) {
+                (None, None) => {}
+                (Some(ix), Some(e)) => {
+                    // the element in that bucket now carries the increment written through the reference
+                    let now = m.verif_bucket(ix).map(|x| (x.k(), x.id(), x.v()));
+                    let add = if T::ZST { 0 } else { 1000 * (i as u64 + 1) };
+                    if now != Some((e.0, e.1, e.2 + add)) {
+                        return Some(format!("get_many_mut request {} returned {} but bucket {} holds {:?}", i, g, ix, now));
+                    }
+                }
+                _ => return Some(format!("get_many_mut request {} returned {} but the probe walk says bucket {:?}", i, g, idxs[i])),
+            }
+        }
+        None
+    }
+
+    /// Direct oracle: what a reference multiset says this op must return and leave behind.
+    /// Only for lawful environments and operations that returned. Returns a complaint, or None.
+    fn ref_step(&mut self, tgt: &str, name: &str, a: &[&str], ret: &str) -> Option<String> {
+        let n = |i: usize| -> u64 { a[i].parse().unwrap() };
+        let zst = T::ZST;
+        let preds = self.preds.borrow().clone();
+        let actual = contents(self.get(tgt));
+        let other_actual = contents(self.get(Self::other_of(tgt)));
+        let full: Vec<usize> = full_buckets(self.get(tgt)).iter().map(|(i, _)| *i).collect();
+        let hash_buckets = |k: u64| -> Vec<usize> {
+            full_buckets(self.get(tgt))
+                .iter()
+                .filter(|(_, e)| tape::plan_hash(e.k()) == tape::plan_hash(k))
+                .map(|(i, _)| *i)
+                .collect()
+        };
+        let hb: Vec<usize> = if name.starts_with("iter_hash") && a.len() == 1 { hash_buckets(n(0)) } else { vec![] };
+        let (r, o) = if tgt == "a" { (&mut self.ra, &mut self.rb) } else { (&mut self.rb, &mut self.ra) };
+        let mut expect: Option<String> = None;
+        let fe = |e: &(u64, u64, u64)| {
+            if T::IDS {
+                format!("{}.{}.0.{}", e.0, e.1, e.2)
+            } else {
+                format!("{}.0.0.{}", e.0, e.2)
+            }
+        };
+        let has_key = |r: &Ms, k: u64| r.iter().any(|e| e.0 == k);
+        match (name, a.len()) {
+            ("insert_unique", 3) => {
+                r.push(Self::el(n(0), n(1), n(2)));
+                expect = Some("()".into());
+            }
+            ("insert", 4) => {
+                r.push(Self::el(n(0), n(1), n(3)));
+                expect = Some("()".into());
+            }
+            ("find", 1) | ("get", 1) => {
+                if !zst && !has_key(r, n(0)) {
+                    expect = Some("-".into());
+                } else if !zst || ret != "-" {
+                    match parse_elem(ret) {
+                        Some(e) if r.contains(&e) && (zst || e.0 == n(0)) => {}
+                        _ => return Some(format!("{} returned {} which is not a stored element with that key", name, ret)),
+                    }
+                }
+            }
+            ("findmut", 2) => {
+                if !zst && !has_key(r, n(0)) {
+                    expect = Some("-".into());
+                } else if !zst {
+                    match parse_elem(ret) {
+                        Some(e) if e.0 == n(0) && e.2 == n(1) => match r.iter_mut().find(|x| x.0 == e.0 && x.1 == e.1) {
+                            Some(x) => x.2 = n(1),
+                            None => return Some(format!("findmut returned {} which is not stored", ret)),
+                        },
+                        _ => return Some(format!("findmut returned {}", ret)),
+                    }
+                }
+            }
+            ("find_entry_remove", 1) | ("find_entry_remove_drop", 1) | ("remove", 1) | ("find_entry_remove_reinsert", 3) => {
+                if !zst && !has_key(r, n(0)) {
+                    expect = Some("-".into());
+                } else if !zst || ret != "-" {
+                    match parse_elem(ret) {
+                        Some(e) if (zst || e.0 == n(0)) && take(r, e) => {
+                            if a.len() == 3 {
+                                r.push(Self::el(n(0), n(1), n(2)));
+                            }
+                        }
+                        _ => return Some(format!("{} returned {} which is not a stored element with that key", name, ret)),
+                    }
+                }
+            }
+            ("entry_insert", 3) | ("entry_or_insert", 3) => {
+                let occupied = if zst { ret == "occ" } else { has_key(r, n(0)) };
+                expect = Some(if occupied { "occ".into() } else { "vac".into() });
+                if !occupied {
+                    r.push(Self::el(n(0), n(1), n(2)));
+                } else if name == "entry_insert" && !zst {
+                    // one of the elements with that key was replaced: the one no longer stored
+                    let gone = r.iter().position(|e| e.0 == n(0) && !actual.contains(e));
+                    match gone {
+                        Some(p) => {
+                            r.swap_remove(p);
+                            r.push(Self::el(n(0), n(1), n(2)));
+                        }
+                        None => return Some("entry_insert on an occupied entry replaced nothing".into()),
+                    }
+                }
+            }
+            ("entry_and_modify", 2) => {
+                let occupied = if zst { ret == "occ" } else { has_key(r, n(0)) };
+                expect = Some(if occupied { "occ".into() } else { "vac".into() });
+                if occupied && !zst {
+                    let changed: Vec<usize> = (0..r.len())
+                        .filter(|&p| r[p].0 == n(0) && !actual.contains(&r[p]) && actual.contains(&(r[p].0, r[p].1, n(1))))
+                        .collect();
+                    if changed.len() == 1 {
+                        r[changed[0]].2 = n(1);
+                    } else if changed.len() > 1 {
+                        return Some("entry_and_modify changed several elements".into());
+                    }
+                }
+            }
+            ("clear", 0) => {
+                r.clear();
+                expect = Some("()".into());
+            }
+            ("reserve", 1) | ("shrink_to", 1) | ("shrink_to_fit", 0) | ("nop", 0) => expect = Some("()".into()),
+            ("len", 0) => expect = Some(r.len().to_string()),
+            ("try_reserve", 1) => {
+                let refusing = tape::with(|t| t.p.afail.is_some() || t.p.afrom.is_some());
+                if n(0) < (1 << 40) && !refusing {
+                    expect = Some("ok".into())
+                }
+            }
+            ("retain", 0) | ("extract_if", 1) => {
+                let mut seen = std::collections::BTreeSet::new();
+                let mut yielded = Vec::new();
+                let mut gone = Vec::new();
+                for (k, id, ans, nv) in &preds {
+                    let p = (0..r.len()).find(|&p| !seen.contains(&p) && r[p].0 == *k && r[p].1 == *id);
+                    match p {
+                        None => return Some(format!("{} visited {}.{} which is not stored (or twice)", name, k, id)),
+                        Some(p) => {
+                            seen.insert(p);
+                            r[p].2 = *nv;
+                            let removed = if name == "retain" { !*ans } else { *ans };
+                            if removed {
+                                gone.push(p);
+                                yielded.push(fe(&r[p]));
+                            }
+                        }
+                    }
+                }
+                if name == "retain" && seen.len() != r.len() {
+                    return Some("retain: predicate calls do not cover the table once".into());
+                }
+                gone.sort();
+                for p in gone.into_iter().rev() {
+                    r.remove(p);
+                }
+                expect = Some(if name == "retain" { "()".into() } else { yielded.join(",") });
+            }
+            ("drain", 2) | ("into_iter", 1) => {
+                let got: Vec<&str> = if ret.is_empty() { vec![] } else { ret.split(',').collect() };
+                let want = std::cmp::min(n(0) as usize, r.len());
+                if got.len() != want {
+                    return Some(format!("{} yielded {} elements, expected {}", name, got.len(), want));
+                }
+                for g in &got {
+                    match parse_elem(g) {
+                        Some(e) if take(r, e) => {}
+                        _ => return Some(format!("{} yielded {} which is not a stored element (or twice)", name, g)),
+                    }
+                }
+                r.clear();
+            }
+            ("iter", _) => {
+                // pre ++ fold visits every full bucket exactly once, ascending
+                if !zst {
+                    let field = |key: &str| -> Vec<usize> {
+                        ret.split_whitespace()
+                            .find_map(|t| t.strip_prefix(key))
+                            .map(|s| s.split(',').filter_map(|x| x.parse().ok()).collect())
+                            .unwrap_or_default()
+                    };
+                    let mut all = field("pre=");
+                    all.extend(field("fold="));
+                    if all != full {
+                        return Some(format!("iteration visited buckets {:?} but the full buckets are {:?}", all, full));
+                    }
+                }
+            }
+            ("iter_hash", 1) | ("iter_hash_mut", 1) => {
+                if !zst {
+                    let got: Vec<usize> = ret.split(',').filter_map(|x| x.parse().ok()).collect();
+                    let mut uniq = got.clone();
+                    uniq.sort();
+                    uniq.dedup();
+                    if uniq.len() != got.len() || got.iter().any(|i| !full.contains(i)) {
+                        return Some(format!("{} yielded {:?} (repeats or non-full buckets)", name, got));
+                    }
+                    if let Some(miss) = hb.iter().find(|i| !got.contains(i)) {
+                        return Some(format!("{} did not yield bucket {} whose element has that hash", name, miss));
+                    }
+                }
+            }
+            ("get_many_mut", _) | ("get_many_mut_any", _) => {
+                let inner = ret.trim_start_matches('[').trim_end_matches(']');
+                let parts: Vec<&str> = if inner.is_empty() { vec![] } else { inner.split(',').collect() };
+                for (i, g) in parts.into_iter().enumerate() {
+                    if let Some(e) = parse_elem(g) {
+                        if !zst {
+                            match r.iter_mut().find(|x| **x == e) {
+                                Some(x) => x.2 += 1000 * (i as u64 + 1),
+                                None => return Some(format!("{} returned {} which is not stored", name, g)),
+                            }
+                            if name == "get_many_mut" && e.0 != n(i) {
+                                return Some(format!("{} returned {} for key {}", name, g, n(i)));
+                            }
+                        }
+                    } else if name == "get_many_mut" && !zst && has_key(r, n(i)) {
+                        return Some(format!("{} did not find key {}", name, n(i)));
+                    }
+                }
+            }
+            ("with_capacity", 1) => {
+                r.clear();
+                expect = Some("()".into());
+            }
+            ("clone_to_other", 0) => {
+                if !zst && other_actual.iter().any(|e| e.1 < 1_000_000) {
+                    return Some("clone shares an identity with its source".into());
+                }
+                let x: Ms = sorted(&other_actual.iter().map(|e| (e.0, 0, e.2)).collect());
+                let y: Ms = sorted(&r.iter().map(|e| (e.0, 0, e.2)).collect());
+                if x != y {
+                    return Some("clone differs from source".into());
+                }
+                *o = other_actual.clone();
+                expect = Some("()".into());
+            }
+            ("clone_from", 0) => {
+                if !zst && actual.iter().any(|e| e.1 < 1_000_000) {
+                    return Some("clone_from shares an identity with its source".into());
+                }
+                let x: Ms = sorted(&actual.iter().map(|e| (e.0, 0, e.2)).collect());
+                let y: Ms = sorted(&o.iter().map(|e| (e.0, 0, e.2)).collect());
+                if x != y {
+                    return Some("clone_from result differs from source".into());
+                }
+                *r = actual.clone();
+                expect = Some("()".into());
+            }
+            _ => {}
+        }
+        if let Some(e) = expect {
+            if e != ret {
+                return Some(format!("{} returned {} but the reference multiset says {}", name, ret, e));
+            }
+        }
+        if sorted(r) != sorted(&actual) {
+            let (x, y) = (sorted(r), sorted(&actual));
+            let missing: Vec<_> = x.iter().filter(|e| !y.contains(e)).collect();
+            let extra: Vec<_> = y.iter().filter(|e| !x.contains(e)).collect();
+            return Some(format!(
+                "contents differ from the reference multiset after {} (missing {:?}, extra {:?}, or multiplicities)",
+                name, missing, extra
+            ));
+        }
+        None
+    }
+
+    /// Direct oracle for ownership: every object moved into a table is in exactly one of
+    /// {a table, dropped once, handed back to the caller}.
+    fn ledger_step(&mut self, name: &str, a: &[&str], events: &[String]) -> Option<String> {
+        if !T::DROP || !T::IDS {
+            return None;
+        }
+        match (name, a.len()) {
+            ("insert_unique", 3) | ("insert", 4) | ("entry_insert", 3) | ("entry_or_insert", 3) | ("find_entry_remove_reinsert", 3) => {
+                self.live.insert(format!("k{}", a[1]));
+            }
+            _ => {}
+        }
+        if name == "drain" && a.len() == 2 && a[1] == "1" {
+            self.leak_ok = true;
+        }
+        if tape::with(|t| t.p.dpanic.is_some()) {
+            self.leak_ok = true;
+        }
+        let mut held = std::collections::BTreeSet::new();
+        for m in [self.a.as_ref().unwrap(), self.b.as_ref().unwrap()] {
+            for e in contents(m) {
+                let id = format!("k{}", e.1);
+                if !held.insert(id.clone()) {
+                    return Some(format!("object {} is held twice", id));
+                }
+            }
+        }
+        for id in &held {
+            let n: u64 = id[1..].parse().unwrap();
+            if n >= 1_000_000 {
+                self.live.insert(id.clone());
+            }
+        }
+        for ev in events {
+            if let Some(id) = ev.strip_prefix('d') {
+                let n: u64 = id[1..].parse().unwrap();
+                // clones made and destroyed inside one operation are never seen in a table
+                let transient = n >= 1_000_000 && !self.dead.contains(id);
+                if !self.live.remove(id) && !transient {
+                    return Some(format!("object {} dropped twice (or never owned)", id));
+                }
+                if !self.dead.insert(id.to_string()) {
+                    return Some(format!("object {} dropped twice", id));
+                }
+            }
+        }
+        for id in tape::take_returned() {
+            if self.live.remove(&id) && !self.dead.insert(id.clone()) {
+                return Some(format!("object {} handed back after it was dropped", id));
+            }
+        }
+        for id in &held {
+            if !self.live.contains(id) {
+                return Some(format!("object {} is in a table but was dropped or returned", id));
+            }
+        }
+        if !self.leak_ok {
+            if let Some(id) = self.live.iter().find(|id| !held.contains(*id)) {
+                return Some(format!("object {} leaked: owned by no table, never dropped, never returned", id));
+            }
+        } else {
+            self.live = held;
+        }
+        None
+    }
+
+    fn run(&mut self, tgt: &str, name: &str, a: &[&str]) -> String {
+        let n = |i: usize| -> u64 { a[i].parse().unwrap() };
+        let rec = self.preds.clone();
+        rec.borrow_mut().clear();
+        let (m, other) = if tgt == "a" {
+            (self.a.as_mut().unwrap(), self.b.as_mut().unwrap())
+        } else {
+            (self.b.as_mut().unwrap(), self.a.as_mut().unwrap())
+        };
+        let hasher = |e: &T| tape::hash_of(e.k());
+        let pred = move |e: &mut T| {
+            let (ans, mutate) = tape::pred_of();
+            if mutate {
+                e.set_v(e.v() + 7);
+            }
+            rec.borrow_mut().push((e.k(), e.id(), ans, e.v()));
+            ans
+        };
+        let bad = usize::MAX;
+        match (name, a.len()) {
+            ("insert_unique", 3) | ("insert", 4) => {
+                let v = if a.len() == 3 { n(2) } else { n(3) };
+                let k = n(0);
+                m.insert_unique(tape::plan_hash(k), T::new(k, n(1), v), hasher);
+                "()".into()
+            }
+            ("find", 1) | ("get", 1) => {
+                let k = n(0);
+                m.find(tape::plan_hash(k), |e| tape::eq_of(k, e.k())).map_or("-".into(), fmt_item)
+            }
+            ("findmut", 2) => {
+                let k = n(0);
+                match m.find_mut(tape::plan_hash(k), |e| tape::eq_of(k, e.k())) {
+                    None => "-".into(),
+                    Some(e) => {
+                        e.set_v(n(1));
+                        fmt_item(e)
+                    }
+                }
+            }
+            ("find_entry_remove", 1) | ("remove", 1) => {
+                let k = n(0);
+                let r = match m.find_entry(tape::plan_hash(k), |e| tape::eq_of(k, e.k())) {
+                    Ok(occ) => {
+                        let (val, vac) = occ.remove();
+                        let _ = vac.into_table().len();
+                        Some(val)
+                    }
+                    Err(absent) => {
+                        let _ = absent.into_table().len();
+                        None
+                    }
+                };
+                quiet();
+                r.as_ref().map_or("-".into(), fmt_item)
+            }
+            ("find_entry_remove_drop", 1) => {
+                let k = n(0);
+                let r = match m.find_entry(tape::plan_hash(k), |e| tape::eq_of(k, e.k())) {
+                    Ok(occ) => {
+                        let (val, vac) = occ.remove();
+                        drop(vac);
+                        Some(val)
+                    }
+                    Err(_) => None,
+                };
+                quiet();
+                r.as_ref().map_or("-".into(), fmt_item)
+            }
+            ("find_entry_remove_reinsert", 3) => {
+                let k = n(0);
+                let new = T::new(k, n(1), n(2));
+                let r = match m.find_entry(tape::plan_hash(k), |e| tape::eq_of(k, e.k())) {
+                    Ok(occ) => {
+                        let (val, vac) = occ.remove();
+                        let occ2 = vac.insert(new);
+                        let _ = occ2.get().k();
+                        Some(val)
+                    }
+                    Err(_) => {
+                        // not consumed: dropped by the operation
+                        drop(new);
+                        None
+                    }
+                };
+                quiet();
+                r.as_ref().map_or("-".into(), fmt_item)
+            }
+            ("entry_insert", 3) => {
+                let k = n(0);
+                let new = T::new(k, n(1), n(2));
+                match m.entry(tape::plan_hash(k), |e| tape::eq_of(k, e.k()), hasher) {
+                    Entry::Occupied(mut occ) => {
+                        *occ.get_mut() = new;
+                        "occ".into()
+                    }
+                    Entry::Vacant(vac) => {
+                        vac.insert(new);
+                        "vac".into()
+                    }
+                }
+            }
+            ("entry_or_insert", 3) => {
+                let k = n(0);
+                let new = T::new(k, n(1), n(2));
+                let ent = m.entry(tape::plan_hash(k), |e| tape::eq_of(k, e.k()), hasher);
+                let was = if matches!(ent, Entry::Occupied(_)) { "occ" } else { "vac" };
+                ent.or_insert(new);
+                was.into()
+            }
+            ("entry_and_modify", 2) => {
+                let k = n(0);
+                let nv = n(1);
+                let ent = m.entry(tape::plan_hash(k), |e| tape::eq_of(k, e.k()), hasher).and_modify(|e| e.set_v(nv));
+                if matches!(ent, Entry::Occupied(_)) { "occ" } else { "vac" }.into()
+            }
+            ("clear", 0) => {
+                m.clear();
+                "()".into()
+            }
+            ("reserve", 1) => {
+                m.reserve(n(0) as usize, hasher);
+                "()".into()
+            }
+            ("try_reserve", 1) => fmt_tre(m.try_reserve(n(0) as usize, hasher)),
+            ("shrink_to", 1) => {
+                m.shrink_to(n(0) as usize, hasher);
+                "()".into()
+            }
+            ("shrink_to_fit", 0) => {
+                m.shrink_to_fit(hasher);
+                "()".into()
+            }
+            ("retain", 0) => {
+                m.retain(pred);
+                "()".into()
+            }
+            ("extract_if", 1) => {
+                let mut out = QuietVec(Vec::new());
+                {
+                    let mut e = m.extract_if(pred);
+                    for _ in 0..n(0) {
+                        match e.next() {
+                            Some(x) => out.0.push(x),
+                            None => break,
+                        }
+                    }
+                }
+                quiet();
+                fmt_items(&out.0)
+            }
+            ("drain", 2) => {
+                let mut out = QuietVec(Vec::new());
+                {
+                    let mut d = m.drain();
+                    for _ in 0..n(0) {
+                        match d.next() {
+                            Some(x) => out.0.push(x),
+                            None => break,
+                        }
+                    }
+                    if n(1) == 1 {
+                        std::mem::forget(d);
+                    }
+                }
+                quiet();
+                fmt_items(&out.0)
+            }
+            ("into_iter", 1) => {
+                let old = std::mem::replace(m, new_table());
+                let mut out = QuietVec(Vec::new());
+                {
+                    let mut it = old.into_iter();
+                    for _ in 0..n(0) {
+                        match it.next() {
+                            Some(x) => out.0.push(x),
+                            None => break,
+                        }
+                    }
+                }
+                quiet();
+                fmt_items(&out.0)
+            }
+            ("iter", 1) | ("iter", 2) => {
+                let ix = addr_index(m);
+                let p = n(0) as usize;
+                let variant = if a.len() == 2 { a[1] } else { "iter" };
+                let idx = |e: &T| if T::ZST { 0 } else { *ix.get(&(e as *const T as usize)).unwrap_or(&bad) };
+                match variant {
+                    "iter_mut" | "values_mut" => observe_iter_nc(m.iter_mut(), p, |e| idx(&**e)),
+                    _ => observe_iter(m.iter(), p, |e| idx(*e)),
+                }
+            }
+            ("iter_hash", 1) => {
+                let ix = addr_index(m);
+                let v: Vec<usize> = m
+                    .iter_hash(tape::plan_hash(n(0)))
+                    .map(|e| if T::ZST { 0 } else { *ix.get(&(e as *const T as usize)).unwrap_or(&bad) })
+                    .collect();
+                nats(&v)
+            }
+            ("iter_hash_mut", 1) => {
+                let ix = addr_index(m);
+                let v: Vec<usize> = m
+                    .iter_hash_mut(tape::plan_hash(n(0)))
+                    .map(|e| if T::ZST { 0 } else { *ix.get(&(&*e as *const T as usize)).unwrap_or(&bad) })
+                    .collect();
+                nats(&v)
+            }
+            ("get_many_mut", cnt) | ("get_many_mut_any", cnt) => {
+                let ks: Vec<u64> = (0..cnt).map(n).collect();
+                let any = name == "get_many_mut_any";
+                match cnt {
+                    0 => gmm::<T, 0>(m, &ks, any),
+                    1 => gmm::<T, 1>(m, &ks, any),
+                    2 => gmm::<T, 2>(m, &ks, any),
+                    3 => gmm::<T, 3>(m, &ks, any),
+                    4 => gmm::<T, 4>(m, &ks, any),
+                    _ => format!("bad-op {}", name),
+                }
+            }
+            ("with_capacity", 1) => {
+                let old = std::mem::replace(m, new_table());
+                drop(old);
+                *m = HashTable::with_capacity_in(n(0) as usize, TapeAlloc);
+                "()".into()
+            }
+            ("clone_to_other", 0) => {
+                let old = std::mem::replace(other, new_table());
+                drop(old);
+                *other = m.clone();
+                "()".into()
+            }
+            ("clone_from", 0) => {
+                // `HashTable` does not override `Clone::clone_from`: `*self = source.clone()`
+                m.clone_from(other);
+                "()".into()
+            }
+            ("len", 0) => m.len().to_string(),
+            ("nop", 0) => "()".into(),
+            _ => format!("bad-op {}", name),
+        }
+    }
+}
+
+impl<T: ItemT> Runner for TableRunner<T> {
+    fn layout(&self) -> (usize, usize, bool, bool) {
+        let (size, _) = hashbrown::verif::table_layout_new::<T>();
+        (size, std::mem::align_of::<T>(), T::DROP, T::IDS)
+    }
+    fn op(&mut self, tgt: &str, name: &str, args: &[&str]) -> String {
+        loud();
+        tape::with(|t| t.events.clear());
+        let ret = match catch_unwind(AssertUnwindSafe(|| self.run(tgt, name, args))) {
+            Ok(s) => s,
+            Err(p) => panic_class(p),
+        };
+        quiet();
+        let mut ret = ret;
+        let evs = tape::peek_events();
+        if let Some(why) = self.ledger_step(name, args, &evs) {
+            ret.push_str(&format!(" ORACLE-LEDGER({})", why.replace(' ', "_")));
+            self.leak_ok = true;
+        }
+        if let Some(why) = inv_oracle(&self.get(tgt).verif_dump()) {
+            ret.push_str(&format!(" ORACLE-INV({})", why.replace(' ', "_")));
+        }
+        if let Some(why) = inv_oracle(&self.get(Self::other_of(tgt)).verif_dump()) {
+            ret.push_str(&format!(" ORACLE-INV(other:{})", why.replace(' ', "_")));
+        }
+        if lawful() && name.starts_with("get_many_mut") {
+            let r0 = ret.clone();
+            if let Some(why) = self.gmm_oracle(tgt, name, args, &r0) {
+                ret.push_str(&format!(" ORACLE-REF({})", why.replace(' ', "_")));
+            }
+        }
+        if lawful() && !ret.starts_with("panic") {
+            if let Some(why) = self.ref_step(tgt, name, args, &ret.clone()) {
+                ret.push_str(&format!(" ORACLE-REF({})", why.replace(' ', "_")));
+                // do not cascade: continue from what the implementation holds
+                self.ra = contents(self.get("a"));
+                self.rb = contents(self.get("b"));
+            }
+        } else {
+            self.ra = contents(self.get("a"));
+            self.rb = contents(self.get("b"));
+        }
+        let st = state_of(self.get(tgt));
+        format!("{} ; {} ; {} ; {}", ret, st, tape::take_events(), tape::counters())
+    }
+    fn dump(&self, tgt: &str) -> Dump {
+        self.get(tgt).verif_dump()
+    }
+    fn keys(&self, tgt: &str) -> Vec<u64> {
+        full_buckets(self.get(tgt)).iter().map(|(_, e)| e.k()).collect()
+    }
+    fn finish(&mut self) -> Vec<String> {
+        quiet();
+        self.a = None;
+        self.b = None;
+        tape::with(|t| {
+            let mut v = std::mem::take(&mut t.alloc_errors);
+            let mut leaks: Vec<String> = t
+                .live_blocks
+                .drain()
+                .map(|(_, (s, a))| format!("leaked block {}/{}", s, a))
+                .collect();
+            leaks.sort();
+            v.extend(leaks);
+            v
+        })
+    }
+}
 
 pub fn make(drop: bool, lay: &str) -> Box<dyn Runner> {
-    panic!("no table_runner for drop={} lay={}", drop, lay)
+    let _ = exec::nats;
+    match (drop, lay) {
+        (_, "zst") => Box::new(TableRunner::<Zst>::new()),
+        (true, "std") => Box::new(TableRunner::<ItemD<()>>::new()),
+        (false, "std") => Box::new(TableRunner::<ItemC<()>>::new()),
+        (true, "a16") => Box::new(TableRunner::<ItemD<A16>>::new()),
+        (false, "a16") => Box::new(TableRunner::<ItemC<A16>>::new()),
+        (true, "a32") => Box::new(TableRunner::<ItemD<A32>>::new()),
+        (false, "a32") => Box::new(TableRunner::<ItemC<A32>>::new()),
+        (true, "a64") => Box::new(TableRunner::<ItemD<A64>>::new()),
+        (false, "a64") => Box::new(TableRunner::<ItemC<A64>>::new()),
+        (true, "big") => Box::new(TableRunner::<ItemD<Big>>::new()),
+        (false, "big") => Box::new(TableRunner::<ItemC<Big>>::new()),
+        _ => panic!("no table_runner for drop={} lay={}", drop, lay),
+    }
 }
